@@ -55,7 +55,10 @@ def key(n):
     if k == "Unary":
         if n["op"] in ("++", "--") and not n.get("prefix", True):
             return "(%s%s)" % (key(n["e"]), n["op"])
-        return "(%s%s)" % (n["op"], key(n["e"]))
+        inner = key(n["e"])
+        if n["op"] == "-" and is_lit(inner):
+            return "-" + inner
+        return "(%s%s)" % (n["op"], inner)
     if k == "Cond":
         return "(%s ? %s : %s)" % (key(n["cond"]), key(n["then"]), key(n["else"]))
     if k == "Subscript":
@@ -77,9 +80,10 @@ def key(n):
         return "%s(%s)" % (nm, ",".join(args))
     if k == "Construct":
         args = [key(a) for a in n.get("args", [])]
-        cls = n.get("cls", "T").split("<")[0].split("::")[-1]
+        cls = n.get("cls", "T").split("<")[0].split("::")[-1].replace("typename ", "")
         pt = (n.get("callee", {}).get("ptypes") or [""])
-        if len(args) == 1 and cls and cls in pt[0]:
+        ctor = n.get("callee", {}).get("name", "").split("::")[-1]
+        if len(args) == 1 and ((cls and cls in pt[0]) or (ctor and ctor in pt[0])):
             return args[0]          # copy / move construction is transparent
         return "%s{%s}" % (cls, ",".join(args))
     if k == "InitList":
@@ -341,3 +345,158 @@ def unify(got, want, locals_got, mapping):
             return False
     mapping.update(new)
     return True
+
+
+# ---------------------------------------------------------------------------------------------
+# linear facts and a difference-bound prover (Bellman-Ford) for bounds obligations
+def guard_nodes(path):
+    """like guards() but returns (condition node, polarity) pairs"""
+    out = []
+    for anc, field, idx in path:
+        k = anc.get("k")
+        if k in ("If", "Cond"):
+            if field == "then":
+                out.append((anc["cond"], True))
+            elif field == "else":
+                out.append((anc["cond"], False))
+        elif k in ("For", "While") and field in ("body", "inc") and anc.get("cond") is not None:
+            out.append((anc["cond"], True))
+        elif k == "Binary" and anc.get("op") == "&&" and field == "r":
+            out.append((anc["l"], True))
+        elif k == "Binary" and anc.get("op") == "||" and field == "r":
+            out.append((anc["l"], False))
+        elif k == "Compound" and field == "c" and idx is not None:
+            for sib in anc["c"][:idx]:
+                s = strip(sib)
+                if s is not None and s.get("k") == "If" and s.get("else") is None and is_exit(s.get("then")):
+                    out.append((s["cond"], False))
+    return out
+
+
+def split_conj(cond, positive):
+    """atomic comparison nodes implied by cond==positive: list of (node, polarity); opaque shapes are dropped"""
+    c = strip(cond)
+    if c is None:
+        return []
+    if c.get("k") == "Binary" and c.get("op") == "&&":
+        return split_conj(c["l"], True) + split_conj(c["r"], True) if positive else []
+    if c.get("k") == "Binary" and c.get("op") == "||":
+        return split_conj(c["l"], False) + split_conj(c["r"], False) if not positive else []
+    if c.get("k") == "Unary" and c.get("op") == "!":
+        return split_conj(c["e"], not positive)
+    if c.get("k") == "Binary" and c.get("op") in NEG:
+        return [(c, positive)]
+    return []
+
+
+def linear_constraints(nodes, rename=None):
+    """(node, polarity) comparisons -> list of (Poly p, op) meaning p op 0 with op in <=,==,!= (integers)"""
+    from ..ir.poly import Poly
+    out = []
+    for n, pos in nodes:
+        op = n["op"] if pos else NEG[n["op"]]
+        d = poly_of(n["l"], rename) - poly_of(n["r"], rename)
+        if op == "<":
+            out.append((d + Poly.const(1), "<="))
+        elif op == "<=":
+            out.append((d, "<="))
+        elif op == ">":
+            out.append((-d + Poly.const(1), "<="))
+        elif op == ">=":
+            out.append((-d, "<="))
+        else:
+            out.append((d, op))
+    return out
+
+
+def _diff_form(p):
+    """p = x - y + c or x + c or -y + c -> (x, y, c) with None for the zero node; else None"""
+    c = p.const_value()
+    terms = [(k, v) for k, v in p.t.items() if k != ()]
+    if any(len(k) != 1 for k, _ in terms) or len(terms) > 2:
+        return None
+    pos = [k[0] for k, v in terms if v == 1]
+    neg = [k[0] for k, v in terms if v == -1]
+    if len(pos) + len(neg) != len(terms) or len(pos) > 1 or len(neg) > 1:
+        return None
+    return (pos[0] if pos else None, neg[0] if neg else None, c)
+
+
+def proves(facts, goal):
+    """facts: list of (Poly, op); goal: (Poly, '<=') i.e. goal_poly <= 0. Integer difference-bound reasoning only."""
+    edges = []     # (u, v, w): v - u <= w
+
+    def add(p):
+        f = _diff_form(p)
+        if f is None:
+            return False
+        x, y, c = f          # x - y + c <= 0  ->  x - y <= -c  : edge y -> x weight -c
+        edges.append((y, x, -c))
+        return True
+    ne = []
+    for p, op in facts:
+        if op == "<=":
+            add(p)
+        elif op == "==":
+            add(p)
+            add(-p)
+        elif op == "!=":
+            ne.append(p)
+    # negated goal: goal_poly >= 1  ->  -goal_poly + 1 <= 0
+    from ..ir.poly import Poly
+    if not add(-goal[0] + Poly.const(1)):
+        return False
+    for _ in range(3):          # integer tightening with disequalities: x - y != c and x - y <= c  ->  x - y <= c-1
+        changed = False
+        if infeasible(edges):
+            return True
+        for p in ne:
+            f = _diff_form(p)
+            if f is None:
+                continue
+            x, y, c = f      # x - y + c != 0  ->  x - y != -c
+            ub = shortest(edges, y, x)
+            lb = shortest(edges, x, y)
+            if ub is not None and ub == -c:
+                edges.append((y, x, -c - 1))
+                changed = True
+            if lb is not None and -lb == -c:
+                edges.append((x, y, c - 1))
+                changed = True
+        if not changed:
+            break
+    return infeasible(edges)
+
+
+def _nodes(edges):
+    s = set()
+    for u, v, w in edges:
+        s.add(u)
+        s.add(v)
+    return s
+
+
+def infeasible(edges):
+    nodes = _nodes(edges)
+    dist = {n: 0 for n in nodes}
+    for _ in range(len(nodes) + 1):
+        ch = False
+        for u, v, w in edges:
+            if dist[u] + w < dist[v]:
+                dist[v] = dist[u] + w
+                ch = True
+        if not ch:
+            return False
+    return True
+
+
+def shortest(edges, src, dst):
+    nodes = _nodes(edges) | {src, dst}
+    INF = float("inf")
+    dist = {n: INF for n in nodes}
+    dist[src] = 0
+    for _ in range(len(nodes)):
+        for u, v, w in edges:
+            if dist[u] + w < dist[v]:
+                dist[v] = dist[u] + w
+    return None if dist[dst] == INF else dist[dst]
